@@ -1500,6 +1500,62 @@ def nu_deep_meta_probe(depths=(3, 126, 127, 140)):
         cl.close()
 
 
+def definition_ttl_probe(seed):
+    """C12 at the definition boundary: `return_options.ttl` of a handler / command definition goes through the same TTL
+    grammar. A malformed one makes the definition invalid (<h>.unregistered / <c>.error, never <h>.registered / <c>.defined,
+    and nothing the script returns is ever stored); a well-formed one is applied to the outputs exactly."""
+    r = random.Random(seed)
+    bad = ['"head:0"', '"time:-5"', '"head:4294967296"', '"sometimes"', '5', '"time:5s"', '"head:"', '""', '"Forever"', '"time:1.5"']
+    good = [('"head:2"', "head:2"), ('"time:60000"', "time:ea60"), ('"forever"', "forever"), ('"head:+3"', "head:3")]   # dump prints hex
+    pool = [(t, None) for t in r.sample(bad, 5)] + r.sample(good, 2)
+    r.shuffle(pool)
+    cl = Client("api,handlers,commands")
+    out = dict(violations=[], probes=0)
+    try:
+        for k, (lit, want) in enumerate(pool):
+            for kind in ("handler", "command"):
+                n = f"{'h' if kind == 'handler' else 'c'}{k}"
+                out["probes"] += 1
+                if kind == "handler":
+                    body = '{ resume_from: "tail", return_options: {ttl: %s}, run: {|frame| if $frame.topic != "go%d" { return }; "v" } }' % (lit, k)
+                    i = cl.append(n + ".register", body=body.encode())
+                    ok_t, bad_t = n + ".registered", n + ".unregistered"
+                else:
+                    body = '{ return_options: {ttl: %s}, run: {|frame| "v" } }' % lit
+                    i = cl.append(n + ".define", body=body.encode())
+                    ok_t, bad_t = n + ".defined", n + ".error"
+                t0 = time.time()
+                seen = None
+                # a command definition that is accepted is not announced: silence for 0.8 s stands for "defined"
+                while time.time() - t0 < (8 if (kind == "handler" or want is None) else 0.8) and seen is None:
+                    for f in cl.frames():
+                        if f["id"] > (i or 0) and f["topic"] in (ok_t, bad_t):
+                            seen = f["topic"]
+                            break
+                    time.sleep(0.03)
+                if kind == "command" and seen is None and want is not None:
+                    seen = ok_t
+                if want is None and seen != bad_t:
+                    out["violations"].append(dict(what=f"{kind} definition with return_options.ttl = {lit} (outside the TTL grammar) was not "
+                                                       f"refused: expected `{bad_t}`, saw `{seen}`"))
+                    continue
+                if want is not None and seen != ok_t:
+                    out["violations"].append(dict(what=f"{kind} definition with return_options.ttl = {lit} (well-formed) was not accepted: saw `{seen}`"))
+                    continue
+                # trigger it: a refused definition stores nothing; an accepted one stores its output with exactly that TTL
+                j = cl.append(f"go{k}") if kind == "handler" else cl.append(n + ".call")
+                cl.settle(0.4, 6)
+                outs = [f for f in cl.frames() if f["id"] > (j or 0) and f["topic"] in (n + ".out", n + ".response", n + ".recv")]
+                if want is None and outs:
+                    out["violations"].append(dict(what=f"{kind} `{n}` defined with the malformed ttl {lit} stored output "
+                                                       f"`{outs[0]['topic']}` with ttl `{outs[0]['ttl']}`"))
+                if want is not None and (not outs or any(f["ttl"] != want for f in outs)):
+                    out["violations"].append(dict(what=f"{kind} `{n}` defined with ttl {lit}: outputs {[(f['topic'], f['ttl']) for f in outs]}, expected ttl `{want}`"))
+        return out
+    finally:
+        cl.close()
+
+
 def wire_boundary_probe(seed):
     """C12 at the HTTP boundary: malformed TTLs / read options / ids are answered 4xx and never stored; well-formed ones
     are stored with exactly the TTL the grammar assigns (checked against the extracted parse_ttl by the caller)"""
